@@ -12,7 +12,7 @@ import z3
 
 from . import core
 from . import scalars as S
-from .api import Raised, SymbolicWorld, exc_name
+from .api import Raised, ShapeMismatch, SymbolicWorld, exc_name
 from .core import Explorer, Inconclusive, PathAbort
 
 
@@ -384,7 +384,7 @@ def matching_entries(known, prop, inst_name, label):
     for e in known:
         if e.get("status") != "known" or e.get("property") != prop:
             continue
-        if fnmatch.fnmatchcase(inst_name, e.get("instance", "*")) and fnmatch.fnmatchcase(label, e.get("obligation", "*")):
+        if fnmatch.fnmatchcase(inst_name, e.get("instance", "*")) and any(fnmatch.fnmatchcase(label, pat) for pat in e.get("obligation", "*").split("|")):
             out.append(e)
     return out
 
@@ -443,7 +443,13 @@ def run_instance(harness, name, params, *, known=(), opts=None, pinned=None):
         tb = obs.pop("_tb", None) if isinstance(obs, dict) else None
         outcome = "raised:" + obs["raised"].name if isinstance(obs, dict) and isinstance(obs.get("raised"), Raised) else "result"
         res["outcomes"][outcome] = res["outcomes"].get(outcome, 0) + 1
-        obligations = [(lab, f) for lab, f in harness.oracle(cx, params, x, obs)]
+        obligations = []
+        try:
+            for lab, f in harness.oracle(cx, params, x, obs):
+                obligations.append((lab, f))
+        except ShapeMismatch as e:
+            # an observable lacks the cells the reference indexes: a failing obligation of its own (replayed like any other)
+            obligations.append((f"observable_shape[{e}]", False))
         obligations += [(lab, f) for lab, f in harness.invariants(cx, params, x, obs)]
         hints = harness.witness_hints(cx, params, x) or ()
         terms = []
